@@ -342,6 +342,9 @@ type c19Env struct {
 	ver    wallet.Helper
 	// the real vertices storage of a ledger (written through the verif hook, read through the public readers)
 	book   *accountant.AccountingBook
+	gbook  *accountant.AccountingBook
+	ggen   ledger.H
+	gseen  int
 	stored int
 	held   []c19Held
 	every  int
@@ -540,6 +543,59 @@ func (e *c19Env) check(v *accountant.Vertex, label string, nontrivKey string) {
 			e.storagePath(v, label, nontrivKey)
 		}
 	}
+	if e.gbook != nil && (e.every <= 1 || e.seq%e.every == 0) {
+		e.graphPath(v, label, nontrivKey)
+	}
+}
+
+// graphPath: the object, hung under the genesis vertex of a real ledger and signed anew (the harness owns the keys), is
+// gossiped to that ledger; when the ledger admits it, it is read back from the live graph through ReadVertex and
+// ReadTransactionByHash and must be, field by field, the object that was admitted, and still verify.
+func (e *c19Env) graphPath(v *accountant.Vertex, label, nontrivKey string) {
+	r := e.w.R
+	c := *ledger.CloneVertex(v)
+	c.LeftParentHash, c.RightParentHash = e.ggen, e.ggen
+	if c.Weight == 0 || c.Weight > 1000 {
+		c.Weight = 2
+	}
+	// unique transaction and vertex per object: the subject carries a counter in front of whatever it holds
+	e.gseen++
+	c.Transaction.Subject = fmt.Sprintf("%d|", e.gseen) + c.Transaction.Subject
+	e.resign(&c)
+	if !e.verifies(&c) {
+		return
+	}
+	in := *ledger.CloneVertex(&c)
+	var aerr error
+	_, pan := guardBool(func() bool { aerr = e.gbook.AddLeaf(context.Background(), &in); return true })
+	if pan != nil {
+		r.Violate("C19", "panic/graph-admission", fmt.Sprintf("AddLeaf panicked on object [%s]: %v", label, pan), nil)
+		return
+	}
+	r.Eval(1)
+	if aerr != nil {
+		r.Count("c19_graph_objects_refused_by_the_ledger", 1)
+		return
+	}
+	r.Count("c19_graph_objects", 1)
+	name := "vertex->live graph->ReadVertex"
+	got, err := e.gbook.ReadVertex(context.Background(), c.Hash)
+	if err != nil {
+		r.Violate("C19", "stored-object-not-readable/"+name, fmt.Sprintf("object [%s] was admitted to the live graph and cannot be read back: %v", label, err), nil)
+		return
+	}
+	if d := vrxDiff(&c, &got); len(d) > 0 {
+		r.Violate("C19", "silently-changed/"+name+"/"+fieldOnly(d[0]), fmt.Sprintf("%s changed %v of object [%s]", name, d, label), nil)
+	} else if !e.verifies(&got) {
+		r.Violate("C19", "verify-outcome-changed/"+name, fmt.Sprintf("object [%s] verified when it was admitted and does not after %s", label, name), nil)
+	}
+	trx, err := e.gbook.ReadTransactionByHash(context.Background(), c.Transaction.Hash)
+	if err != nil {
+		r.Violate("C19", "stored-object-not-readable/transaction->live graph->ReadTransactionByHash", fmt.Sprintf("the transaction of object [%s] was admitted and cannot be read back: %v", label, err), nil)
+	} else if d := trxDiff(&c.Transaction, &trx); len(d) > 0 {
+		r.Violate("C19", "silently-changed/transaction->live graph->ReadTransactionByHash/"+fieldOnly(d[0]), fmt.Sprintf("ReadTransactionByHash changed %v of object [%s]", d, label), nil)
+	}
+	r.Nontriv("live-graph/" + nontrivKey)
 }
 
 func fieldOnly(s string) string {
@@ -840,6 +896,15 @@ func c19Worker(w *core.WorkerCtx) {
 		defer book.VerifClose()
 	} else {
 		r.Inconc("cannot build a ledger for the storage path: " + err.Error())
+	}
+	// a second ledger, with a genesis that pays the harness's issuer: objects the harness can sign validly are admitted to
+	// its live graph (as children of the genesis vertex) and read back through the graph branch of the readers
+	gnode := ledger.NewActor("graph-node")
+	if gbook, err := accountant.NewAccountingBook(bctx, accountant.Config{Truncate: 1 << 50}, e.ver, &gnode.W, ledger.NoLog{}); err == nil {
+		if g, err := gbook.CreateGenesis("GENESIS", spice.Melange{Currency: 1 << 62}, []byte{}, e.issuer.Addr); err == nil {
+			e.gbook, e.ggen = gbook, g.Hash
+		}
+		defer gbook.VerifClose()
 	}
 	e.every = 1
 	if w.Batch > 1 {
